@@ -64,22 +64,62 @@ def run(ctx):
     ctx.parallel([(lambda a=a: net_stage(*a[:5])) for a in NET if a[5] or thorough] +
                  [(lambda a=a: q_stage(*a[:5])) for a in QCFG if a[5] or thorough], width=4)
 
+    # ---- Louvain: record real Modularize runs, validate every level with TLC, compare Q --------
+    runs = 60 if thorough else 16
+
+    def louvain_stage(fam):
+        tr = os.path.join(ctx.work, "louvain-%s.ndjson" % fam)
+        summ = ctx.record(hb, "louvain", tr, ["family=" + fam, "runs=%d" % runs, "maxn=60"],
+                          name="R3 record Modularize " + fam)
+        ok, st = ctx.validate("network/CommunityTrace.tla", "network/CommunityTrace.cfg", tr,
+                              subst=dict(TRACE="trace.ndjson", EMIT="FALSE"), name="R3 validate Modularize " + fam)
+        if not ok:
+            keep = os.path.join(os.path.dirname(__file__), "..", "..", "replays", "C15")
+            os.makedirs(keep, exist_ok=True)
+            dst = os.path.abspath(os.path.join(keep, "louvain-%s-seed%d.ndjson" % (fam, ctx.seed)))
+            shutil.copy(tr, dst)
+            ctx.violation("community:Modularize:trace-rejected:" + fam, st.get("detail", "")[:700],
+                          {"trace": dst, "family": fam})
+            return
+        with ctx._lock:
+            ctx.traces += summ.get("traces", 0)
+        # second pass: TLC prints the exact Q of every level next to gonum's floats
+        qs = ctx.gen("network/CommunityTrace.tla", "network/CommunityTrace.cfg", cache=False,
+                     subst=dict(TRACE=tr, EMIT="TRUE"), name="R3 exact Q of every level " + fam)
+        ctx.replay(hb, "louvain-q", qs, name="R3 compare Q " + fam)
+        for f in (qs, qs[:-7] + ".meta.json"):
+            if os.path.exists(f):
+                os.remove(f)
+
+    ctx.parallel([lambda: louvain_stage("undir"), lambda: louvain_stage("dir")], width=2)
+
     ctx.assumptions += [
         "TLC/SANY and the CommunityModules (Json, Functions, FiniteSetsExt) are trusted",
         "the harness's graph builder (model node -> real id), map comparison and big.Rat comparison are trusted",
         "formula-valued measures are compared with the exact rational within 1e-12 relative (c*n*eps)",
+        "Louvain traces: the recorder's projection of each level (Communities, Structure, Weight matrix) is trusted; "
+        "Q of a level is compared with TLC's exact rational within 1e-10 (sum of up to n^2 float terms, n <= 60)",
         "PageRank: allowed deviation from the exact stationary vector = d/(1-d)*n*tol (emitted by the spec from the "
         "contraction argument) + 1e-7 for the rounding of the iteration itself (random start vector scaled by 1/sum)",
     ]
     return ctx.finish(
         rule="one case = one graph (all measures of graph/network and graph/spectral on it, on every applicable "
-             "container type and shortest-path source); non-trivial = the graph has at least one edge",
+             "container type and shortest-path source; or community.Q on all partitions x 3 resolutions of it); "
+             "non-trivial = the graph has at least one edge (Q: partition neither trivial nor singletons). "
+             "R3: one trace = one Modularize run (all levels); one Q case = one level of one run.",
         exhaustive=True)
 
 
 def replay(ctx, path):
     import json
     d = json.load(open(path))["data"]
+    if "trace" in d:
+        ok, st = ctx.validate("network/CommunityTrace.tla", "network/CommunityTrace.cfg", d["trace"],
+                              subst=dict(TRACE="trace.ndjson", EMIT="FALSE"))
+        print("trace accepted" if ok else "trace rejected: " + st.get("detail", "")[:800])
+        if not ok:
+            print("VIOLATION property=C15 replay=%s" % path)
+        return 0 if ok else 1
     one = os.path.join(ctx.work, "one.ndjson")
     with open(one, "w") as fh:
         fh.write(json.dumps(d["failure"]["case"]) + "\n")
